@@ -130,3 +130,19 @@ package entry
 //@     invariant len(orderedMap.(*OrderedMap).keys) <= $k
 //@     lockinvariant held[orderedMap.(*OrderedMap).lock] == 0
 //@     loopmodifies orderedMap.(*OrderedMap).keys, mapof(orderedMap.(*OrderedMap).values)
+
+// ---- entry.go: reading untrusted blocks ----
+//@ define validAnyIO(io iface.IO) = io != nil && (typeis(io, "*cbor.IOCbor") ==> validIO(io.(*cbor.IOCbor))) && (typeis(io, "*pb.pb") ==> validPB(io.(*pb.pb)))
+
+//@ func FromMultihashWithIO
+//@   requires validAnyIO(io)
+//@   ensures [fetched-entry-is-safe-to-use] err == nil ==> validEntry(result0)
+
+//@ func (*Entry).Equals
+//@   requires e != nil && b != nil && typeis(b, "*Entry") && ref(b) != nil
+//@   pure
+//@   ensures result == (str(e.Hash) == ehash(b))
+
+//@ func (*Entry).IsParent
+//@   requires e != nil && b != nil && typeis(b, "*Entry") && ref(b) != nil
+//@   pure
